@@ -39,12 +39,16 @@ def _generic_rules():
 def translate(toks, rules, log, what="", generic=True):
     if generic:
         from .rules import normalize_chains, option_idioms
-        toks = option_idioms(normalize_chains(toks, log), log)
-    for r in list(rules) + (_generic_rules() if generic else []):
+        toks = normalize_chains(toks, log)
+    for r in list(rules):
         try:
             toks = r.apply(toks, log)
         except AnchorLost as e:
             raise Undecided(f"{what}: anchor lost: {e}")
+    if generic:
+        toks = option_idioms(toks, log)        # after the unit's own rules (which are written against the original text)
+        for r in _generic_rules():
+            toks = r.apply(toks, log)
     return toks
 
 
